@@ -63,6 +63,9 @@ pub struct RetryCase {
     /// builder call order (bit 0 predicate first, bit 1 max_attempts last, bit 2 budget first)
     #[serde(default)]
     pub setter_order: u8,
+    /// inner calls use up the task's cooperative budget in the poll they complete in
+    #[serde(default)]
+    pub drain_budget: bool,
 }
 
 fn one() -> u64 {
@@ -106,10 +109,10 @@ fn case_strategy(_tier: Tier) -> BoxedStrategy<RetryCase> {
         budget,
         prop::collection::vec(request, 1..=4),
         prop::collection::vec(any::<u8>(), 0..=32),
-        (prop_oneof![5 => Just(1u64), 1 => Just(2u64), 1 => Just(5u64), 1 => 2u64..=40], 0u8..8),
+        (prop_oneof![5 => Just(1u64), 1 => Just(2u64), 1 => Just(5u64), 1 => 2u64..=40], 0u8..8, prop::bool::weighted(0.2)),
     )
         .prop_map(
-            |(max_attempts, per_request, backoff, predicate, budget, requests, order, (step_ms, setter_order))| RetryCase {
+            |(max_attempts, per_request, backoff, predicate, budget, requests, order, (step_ms, setter_order, drain_budget))| RetryCase {
                 max_attempts,
                 per_request,
                 backoff,
@@ -119,6 +122,7 @@ fn case_strategy(_tier: Tier) -> BoxedStrategy<RetryCase> {
                 order,
                 step_ms,
                 setter_order,
+                drain_budget,
             },
         );
     // long outage: one request retried 40-80 times against a capped exponential (or tiny fixed)
@@ -153,6 +157,7 @@ fn case_strategy(_tier: Tier) -> BoxedStrategy<RetryCase> {
             order: vec![],
             step_ms: 1,
             setter_order: 0,
+            drain_budget: false,
         });
     prop_oneof![14 => general, 1 => long].boxed()
 }
@@ -230,7 +235,7 @@ async fn interp(case: &RetryCase) -> Verdict {
             r.script
                 .iter()
                 .map(|&(lat, o)| Step {
-                    lat: Lat::Ms(lat),
+                    lat: if case.drain_budget { Lat::MsDrain(lat) } else { Lat::Ms(lat) },
                     out: if o == 0 { Out::Ok } else { Out::Err(o as u32) },
                 })
                 .collect(),
